@@ -378,3 +378,36 @@ Fixpoint h3w_run (st : list line) (qs : list creq) : list (list line) :=
   | [] => []
   | q :: r => let '(f, st') := h3w_write st q in f :: h3w_run st' r
   end.
+
+(* ---------- one Request executed several times (retry attempts, sending it again) ----------
+   What the middlewares leave IN the Request between attempts: parseRequestHeader stores the client
+   defaults into Request.Headers, parseRequestCookie appends the client cookies on attempt 0.
+   Client.roundTrip then works on a CLONE of the header map (AddCookie, and the cookie jar, write
+   into the clone). *)
+Record rstate := mkRs { rs_hdr : list kv; rs_cks : list (bytes * bytes) }.
+
+Definition run_middleware (ch : list kv) (cck : list (bytes * bytes)) (attempt : nat) (s : rstate) : rstate :=
+  mkRs (merge_headers (rs_hdr s) ch)
+       (match attempt with O => rs_cks s ++ cck | _ => rs_cks s end).
+
+(* the header of the http.Request of one attempt *)
+Definition attempt_header (s : rstate) : list kv := fold_left add_cookie (rs_cks s) (rs_hdr s).
+
+(* state after attempts 0..k *)
+Fixpoint after_attempts (ch : list kv) (cck : list (bytes * bytes)) (k : nat) (s : rstate) : rstate :=
+  match k with
+  | O => run_middleware ch cck 0 s
+  | S j => run_middleware ch cck (S j) (after_attempts ch cck j s)
+  end.
+
+(* the variant in which the attempt's http.Request shares the Request's header map (no clone):
+   what AddCookie writes stays in the Request *)
+Definition run_attempt_shared (ch : list kv) (cck : list (bytes * bytes)) (attempt : nat) (s : rstate) : rstate :=
+  let s' := run_middleware ch cck attempt s in mkRs (attempt_header s') (rs_cks s').
+
+(* ---------- the HPACK state one HTTP/2 connection carries from request to request ----------
+   encodeHeaders: a first pass adds up the size of the field list and refuses the request when it
+   exceeds the peer's SETTINGS_MAX_HEADER_LIST_SIZE; only then are the fields given to the
+   connection's encoder.  The codec itself is abstract. *)
+Definition field_list_size (ls : list line) : N :=
+  fold_left (fun acc l => (acc + N.of_nat (length (fst l)) + N.of_nat (length (snd l)) + 32)%N) ls 0%N.
